@@ -23,8 +23,8 @@ EXPLANATION = (
 UNDECIDED = "permutation independence of the accumulated result; non-interference of the members (assumed by the property)"
 
 
-def _matcher(e):
-    if isinstance(e, ast.Name) and e.id == "allow_inapplicable_actions":
+def _matcher(e, p=None):
+    if isinstance(e, ast.Name) and (L.is_param(p, e, "allow_inapplicable_actions") if p is not None else e.id == "allow_inapplicable_actions"):
         return "allow"
     if isinstance(e, ast.Call) and isinstance(e.func, ast.Attribute) and e.func.attr == "is_applicable":
         return "applicable"
@@ -40,9 +40,9 @@ def _matcher(e):
 def rule_guard(repo: Repo) -> RuleResult:
     r = RuleResult("C16.guard", "apply_actions: applicability on the original state, effects on its copy, refusal iff not applicable and not allowed, nop skipped",
                    "joint action = members applied one after the other; refused when a member is inapplicable")
-    f = repo.func("multi_agent.common::apply_actions")
+    f = L.fn(repo, "multi_agent.common::apply_actions")
     p = L.prov(repo, f)
-    G = L.Guards(f, _matcher)
+    G = L.Guards(f, lambda e: _matcher(e, p))
     g = G.g
     state = "current_state"
     if state not in f.params:
@@ -124,39 +124,49 @@ def rule_guard(repo: Repo) -> RuleResult:
 
 
 def rule_export(repo: Repo, rid: str, cls: str, keyword: str) -> RuleResult:
+    from .. import strshape as S
     r = RuleResult(rid, f"{cls}.export: first state, then per triplet one '({keyword} ...)' line followed by the post-state; whole list wrapped in one pair of parentheses",
                    "one step per (joint) action with chained states")
-    f = repo.func(f"{cls}.export")
+    f = L.fn(repo, f"{cls}.export")
     p = L.prov(repo, f)
-    g = C.cfg_of(f.node)
-    loops = [n for n in ast.walk(f.node) if isinstance(n, ast.For)]
     r.site(f.qn)
-    if len(loops) != 1:
-        raise AnalysisError(f"{cls}.export: one loop over the triplets expected")
-    loop = loops[0]
-    tr = p.trace(loop.iter)
-    if not all(x == ("param:triplets",) for x in tr):
-        r.fail(Finding(rid, f, "iterates", f"export iterates {sorted(tr)[:2]} instead of the triplets in order", node=loop))
-    apps = [c for c in L.calls_in(loop) if isinstance(c.func, ast.Attribute) and c.func.attr == "append"]
-    kinds = []
-    for a in apps:
-        arg = a.args[0]
-        if isinstance(arg, ast.JoinedStr):
-            lit = "".join(v.value for v in arg.values if isinstance(v, ast.Constant))
-            kinds.append("op:" + lit.strip())
-        else:
-            t = p.trace(arg)
-            if any("attr:next_state" in x and "call:serialize" in x for x in t):
-                kinds.append("next_state")
-            else:
-                kinds.append("other")
-    first = [c for c in L.calls_in(f.node) if isinstance(c.func, ast.Attribute) and c.func.attr == "append" and c not in apps]
-    first_ok = any(any("item:0" in x and "attr:previous_state" in x and "call:serialize" in x for x in p.trace(c.args[0])) for c in first)
-    want = [f"op:({keyword} )", "next_state"]
-    if kinds == want and first_ok:
-        r.ok({"per_triplet": kinds, "first": "triplets[0].previous_state.serialize()"})
+    rets = [x for x in L.func_returns(f) if x.value is not None]
+    if len(rets) != 1:
+        raise AnalysisError(f"{cls}.export: one return of the list of lines expected")
+    ev = S.Evaluator(repo, f)
+    try:
+        seq = ev.sequence(rets[0].value)
+    except S.NotInterpretable as ex:
+        raise AnalysisError(f"{cls}.export: the construction of the returned lines is not interpreted ({ex})")
+
+    def hole(n) -> str:
+        try:
+            tr = p.trace(n)
+        except KeyError:
+            return "?" + unparse(n, 30)
+        trip = [x for x in tr if x[0] == "param:triplets"]
+        if trip and all("item:0" in x and "attr:previous_state" in x and x[-1] == "call:serialize" for x in trip):
+            return "first_state"
+        if trip and all("elem" in x and "attr:next_state" in x and x[-1] == "call:serialize" for x in trip):
+            return "next_state"
+        if trip and all(x[1:3] == ("elem", "attr:operator") for x in trip):
+            return "operator"
+        if trip and all(x[1:4] == ("elem", "attr:joint_action", "elem") for x in trip):
+            return "member"
+        return "?" + unparse(n, 30)
+
+    got = S.render_seq(seq, hole)
+    op_line = {"operator:": "(operator: {operator})\n", "operators:": "(operators: [{member}]*< >)\n"}[keyword]
+    want = ["({first_state}", "[", op_line, "{next_state}", "]*", "wrap-last:_)"]
+    loops = [it.loop for it in seq.items if isinstance(it, S.RepItems)]
+    over_triplets = len(loops) == 1 and all(x == ("param:triplets",) for x in p.trace(loops[0].iter)) and not getattr(loops[0], "guards", None) \
+        and not loops[0].conds
+    if got == want and over_triplets and not seq.ordered:
+        r.ok({"lines": got})
+    elif got == want:
+        r.fail(Finding(rid, f, "iterates", "export does not emit one step for every triplet, in order", node=rets[0]))
     else:
-        r.fail(Finding(rid, f, "layout", f"per triplet the exporter appends {kinds} (expected {want}); first state ok={first_ok}"))
+        r.fail(Finding(rid, f, "layout", f"the exported lines are {got} (expected {want})", node=rets[0]))
     r.require_sites(1)
     return r
 
@@ -165,7 +175,9 @@ def rule_objects(repo: Repo) -> RuleResult:
     r = RuleResult("C16.objects", "every Operator that library code applies is constructed with the problem objects",
                    "without them _apply_universal_effects returns early and forall effects are skipped")
     op_init = repo.find_method("Operator", "__init__")
-    for f in repo.all_funcs():
+    from ..inline import flatten
+    for f0 in repo.all_funcs():
+        f = flatten(repo, f0)
         ctors = [c for c in L.calls_in(f.node) if callee_name(c) == "Operator" and isinstance(c.func, ast.Name)]
         if not ctors:
             continue
